@@ -33,8 +33,8 @@ const rtPath = modPath + "/pkg/verifrt"
 
 type stats struct {
 	Files, MapRanges, MapRangesSkipped, SyncImports, AtomicImports, FieldEvents, GlobalEvents, MapEvents, SliceEvents, Unmodelled int
-	UnmodelledSites                                                                                                  []string
-	SkippedRanges                                                                                                    []string
+	UnmodelledSites                                                                                                               []string
+	SkippedRanges                                                                                                                 []string
 }
 
 func main() {
